@@ -1,9 +1,11 @@
 (** C14 — cross-objective diagnostics match the reported strategies: what one step of the reward loop
     does to 'probabilities under minimal reward' (erm) and 'rewards under minimal reachability' (ermr).
     Generic in the number operations. Equality with the induced chain's true values is subject to K1
-    and is covered by the oracle part of the check. *)
+    and to K5 (refuted below: a stale value at a player state that never reaches a final state) and is
+    covered by the oracle part of the check. *)
 From Coq Require Import String List Arith Bool.
-From CR Require Import Model.Num Model.Outcome Model.Game Proofs.GameP Proofs.RewStepP.
+From Coq Require Import QArith.
+From CR Require Import Model.Num Model.Outcome Model.Graph Model.Game Proofs.GameP Proofs.RewStepP Proofs.PipelineP Proofs.C14Q.
 Import ListNotations.
 
 (* Player 1: expected reward, reward diagnostic and probability diagnostic all follow ONE successor,
@@ -44,7 +46,23 @@ Theorem C14_seeded_from_reachability : forall (T : Type) (K : ops T) prune (sla 
   after_reach K prune sla = Ok sl1 -> erm (getn K sl1 i) = reach (getn K sl1 i).
 Proof. intros T K. exact (after_reach_seeds K). Qed.
 
+(* REFUTED (known finding K5): "the 'probabilities under minimal reward' output equals each state's
+   probability of reaching a final state when both players follow their final strategies" fails on a
+   well-formed 5-state game solved without pruning (exact rationals, so rounding plays no part): Player 2's
+   final strategy at state 1 is the single action "c", which leads back to state 1, not a final state - the
+   probability of ever reaching a final state from there is 0 (and the reported reachability value is 0) -
+   but the diagnostic reports 1 there and 1 instead of 1/2 at the initial state. *)
+Theorem C14_stale_diagnostic_refuted :
+  exists (g : game (T:=Q)) r, wf_game qops g /\ solve_fuel qops 100 g false = Ok r /\
+    nth 1 (r_final r) None = Some ["c"%string] /\
+    (forall t, In t (nth 1 (g_trans g) []) -> act t = "c"%string -> dst t = 1) /\
+    ~ In 1 (g_finals g) /\
+    nth 1 (r_prob_min_rew r) 0%Q = 1%Q /\ nth 0 (r_prob_min_rew r) 0%Q = 1%Q /\
+    nth 1 (r_probs r) 1%Q = 0%Q.
+Proof. destruct k5_stale as (r & H). exists k5_game, r. split; [exact k5_wf|exact H]. Qed.
+
 Print Assumptions C14_step_player1.
 Print Assumptions C14_step_player2.
 Print Assumptions C14_step_probabilistic.
 Print Assumptions C14_seeded_from_reachability.
+Print Assumptions C14_stale_diagnostic_refuted.
